@@ -292,6 +292,15 @@ def builtin_value(fr, name, args, kw, n):
     if name == 'dict':
         if not args:
             return ('dict', tuple(sorted(kw.items())))
+        if a0[0] == 'call' and a0[1] == 'zip' and len(a0[2]) == 2 and all(x[0] in ('list', 'tuple') for x in a0[2]) \
+                and all(T.isconst(k_) for k_ in a0[2][0][1]) and len(a0[2][0][1]) == len(a0[2][1][1]):
+            d = {k_[1]: v_ for k_, v_ in zip(a0[2][0][1], a0[2][1][1])}
+            d.update(kw)
+            return ('dict', tuple(sorted(d.items(), key=lambda kv: repr(kv[0]))))
+        if a0[0] in ('list', 'tuple') and all(x[0] == 'tuple' and len(x[1]) == 2 and T.isconst(x[1][0]) for x in a0[1]):
+            d = {x[1][0][1]: x[1][1] for x in a0[1]}
+            d.update(kw)
+            return ('dict', tuple(sorted(d.items(), key=lambda kv: repr(kv[0]))))
         if a0[0] == 'dict':
             d = dict(a0[1])
             d.update(kw)
@@ -422,10 +431,42 @@ def isinstance_(fr, t, type_node):
 
 
 # ---------------------------------------------------------------------------------------------- externals
+NP_SIG = {   # positional parameter names of the numpy / pandas functions the repository calls (numpy documentation)
+    'pad': ['array', 'pad_width', 'mode'], 'diff': ['a', 'n', 'axis', 'prepend', 'append'], 'append': ['arr', 'values', 'axis'],
+    'zeros': ['shape', 'dtype'], 'ones': ['shape', 'dtype'], 'interp': ['x', 'xp', 'fp'], 'mean': ['a', 'axis'], 'median': ['a', 'axis'],
+    'sum': ['a', 'axis'], 'argmax': ['a', 'axis'], 'argmin': ['a', 'axis'], 'swapaxes': ['a', 'axis1', 'axis2'], 'unique': ['ar'],
+    'array': ['object', 'dtype'], 'asarray': ['a', 'dtype'], 'arange': ['start', 'stop', 'step'], 'where': ['condition', 'x', 'y'],
+    'flatnonzero': ['a'], 'isnan': ['x'], 'abs': ['x'], 'ceil': ['x'], 'floor': ['x'], 'logical_and': ['x1', 'x2'], 'logical_or': ['x1', 'x2'],
+    'nanmin': ['a', 'axis'], 'nanmax': ['a', 'axis'], 'min': ['a', 'axis'], 'max': ['a', 'axis'], 'reshape': ['a', 'newshape'], 'shape': ['a'],
+    'concat': ['objs', 'axis'],
+}
+
+
+def positional_form(params, args, kw):
+    """move keyword arguments into the positional slots they name, as long as the slots stay contiguous: one normal form for
+    f(x, 3), f(x, n=3) and f(a=x, n=3)"""
+    args, kw = list(args), dict(kw)
+    if any(a[0] == 'starargs' for a in args):
+        return args, kw
+    for p_ in params[len(args):]:
+        if p_ in kw:
+            args.append(kw.pop(p_))
+        else:
+            break
+    return args, kw
+
+
 def external(fr, dotted, args, kw, extra, n):
     ctx = fr.ctx
     parts = dotted.split('.')
     top, name = parts[0], parts[-1]
+    if top in ('numpy', 'pandas') and name in NP_SIG:
+        args, kw = positional_form(NP_SIG[name], args, kw)
+    elif top in ('neurodsp', 'scipy'):
+        from .srcmodel import external_function
+        node_, _p = external_function(dotted)
+        if node_ is not None:
+            args, kw = positional_form([a.arg for a in node_.args.posonlyargs + node_.args.args], args, kw)
     guard, loops, where = fr.guard(), fr.loops, fr.where(n)
     a0 = args[0] if args else None
 
@@ -523,6 +564,18 @@ def external(fr, dotted, args, kw, extra, n):
         return NONE
     if dotted in ('operator.gt', 'operator.lt', 'operator.ge', 'operator.le') and len(args) == 2:
         return T.cmp_({'gt': 'Gt', 'lt': 'Lt', 'ge': 'GtE', 'le': 'LtE'}[name], args[0], args[1])
+    if dotted == 'functools.reduce' and len(args) >= 2 and args[1][0] in ('list', 'tuple') and args[1][1] and args[0][0] == 'extref':
+        opn = args[0][1]
+        items = list(args[1][1]) if len(args) == 2 else [args[2]] + list(args[1][1])
+        fold = {'operator.and_': lambda a, b: T.band([a, b]), 'operator.or_': lambda a, b: T.bor([a, b]), 'operator.add': T.add, 'operator.mul': T.mul,
+                'numpy.logical_and': lambda a, b: T.band([a, b]), 'numpy.logical_or': lambda a, b: T.bor([a, b])}.get(opn)
+        if fold is not None:
+            acc = items[0]
+            for x in items[1:]:
+                acc = fold(acc, x)
+            return acc
+    if dotted in ('operator.and_', 'operator.or_') and len(args) == 2:
+        return T.band(args) if dotted.endswith('and_') else T.bor(args)
     if dotted == 'itertools.product':
         return T.call('product', args, kw)
     if dotted == 'itertools.cycle':
@@ -561,8 +614,14 @@ def external(fr, dotted, args, kw, extra, n):
 
 
 # ---------------------------------------------------------------------------------------------- methods
+METHOD_SIG = {'rename': [], 'drop': ['labels'], 'pop': ['item'], 'get': ['key', 'default'], 'astype': ['dtype'], 'reshape': ['shape'],
+              'rank': [], 'append': ['object'], 'get_loc': ['key'], 'replace': ['old', 'new'], 'startswith': ['prefix'], 'endswith': ['suffix']}
+
+
 def method(fr, recv, recv_node, name, args, kw, extra, n):
     ctx = fr.ctx
+    if name in METHOD_SIG and METHOD_SIG[name]:
+        args, kw = positional_form(METHOD_SIG[name], args, kw)
     guard, loops, where = fr.guard(), fr.loops, fr.where(n)
     a0 = args[0] if args else None
     tag = recv[0]
@@ -668,7 +727,7 @@ def method(fr, recv, recv_node, name, args, kw, extra, n):
     if name == 'format':
         return T.call('str.format', (recv,) + tuple(args), kw)
     # ---- pandas
-    if name == 'to_dict' and a0 == C('records'):
+    if name == 'to_dict' and (a0 == C('records') or kw.get('orient') == C('records')):
         return ('records', recv)
     if name == 'rank':
         return T.call('rank', (recv,), kw)
